@@ -1,0 +1,27 @@
+//go:build verif
+
+package ingest
+
+import (
+	"diagonal.works/b6/verifrt"
+	"github.com/golang/geo/s1"
+	"github.com/golang/geo/s2"
+)
+
+// Lemmas of the b6vc verifier (/verif). Parameters are universally
+// quantified; the bodies call the real functions.
+
+// C10: lat/lng point IDs hold the two E7 coordinates in 32 bits each.
+// Angle.E7 is an external pure function (contract file); the lemma says the
+// ID unpacks to exactly the E7 integers that were packed.
+func verifLemma_C10_latlng_id(ll s2.LatLng) {
+	wantLat := s1.Angle(ll.Lat.E7()) * s1.E7
+	wantLng := s1.Angle(ll.Lng.E7()) * s1.E7
+	// An int32 times 1e-7 is never NaN; float arithmetic itself is outside the verifier.
+	verifrt.Assume(wantLat == wantLat && wantLng == wantLng)
+	id := NewLatLngID(ll)
+	got, ok := LatLngFromID(id)
+	verifrt.Assert(ok, "namespace")
+	verifrt.Assert(got.Lat == wantLat, "lat")
+	verifrt.Assert(got.Lng == wantLng, "lng")
+}
